@@ -371,6 +371,7 @@ def chord_instrument_to_notes(chord, voice, part_name, ins_idx, last_spelling=No
                     curr_dynamic = n.amp_figure
                 # A note sounds in this chord: a following continuation ties to it, whatever ended the previous chord
                 old_last_is_silence = False
+                last_is_silence = False
                 if (last_pitch != old_last_pitch) or (not no_repeat):
                     voice.append(new_note)
                 else:
